@@ -4,6 +4,7 @@
 //!        hesim selftest-determinism [ID...]
 //! env:   VERIF_SEED=<int> (default fixed), VERIF_TIER, HESIM_WORKERS
 
+mod c14;
 mod c15;
 mod c17;
 mod c18;
@@ -98,6 +99,7 @@ fn main() {
             std::process::exit(2);
         }
         let code = match cmd {
+            "C14" => c14::replay(&doc),
             "C15" => c15::replay(&doc),
             "C17" => c17::replay(&doc),
             "C18" => c18::replay(&doc),
@@ -110,6 +112,7 @@ fn main() {
     }
     println!("VERIF_SEED={} tier={} workers={}", seed, tier.name(), driver::workers());
     let code = match cmd {
+        "C14" => c14::run(tier, seed),
         "C15" => c15::run(tier, seed),
         "C17" => c17::run(tier, seed),
         "C18" => c18::run(tier, seed),
